@@ -173,14 +173,18 @@ def load_corpus(pid):
     return out
 
 
-def shrink(prop, case, still_fails, budget=400):
+def shrink(prop, case, still_fails, budget=400, seconds=90):
+    """greedy shrinking, bounded in attempts and in wall time (a failing case with thousands of events is reported as
+    it is rather than shrunk for an hour)"""
     cur = case
     improved = True
+    t_end = time.time() + seconds
     while improved and budget > 0:
         improved = False
         for cand in prop.shrink(cur):
             budget -= 1
-            if budget <= 0:
+            if budget <= 0 or time.time() > t_end:
+                budget = 0
                 break
             try:
                 if still_fails(cand):
